@@ -13,7 +13,9 @@ RULE = ("generated well-formed file sets whose kernels do not overlap within a s
         "when the previous one ends; zero-length kernels; missing launches, orphan kernels with and without id; memcpy/memset; first file entry starting late); "
         "threshold drawn from {0,1,2,5,30} and gap values +-1; stream subsets; every rank requested; compared: idle_time of each (stream, category) and the "
         "ratios; non-trivial = some stream has gaps in at least two categories; distinct = hash of the file set and parameters")
-ASSUMPTIONS = ["kernels of a stream do not overlap (quantifier); streams with two kernels sharing a start time are compared only when the stream has fewer than "
+ASSUMPTIONS = ["a stream holding two activities with identical start and end leaves the order of the two to the sort's tie handling: only the stream's total "
+               "idle time is compared there",
+               "kernels of a stream do not overlap (quantifier); streams with two kernels sharing a start time are compared only when the stream has fewer than "
                "16 kernels (numpy's quicksort is then an insertion sort and keeps the frame order, which is what the model's stable sort does)",
                "a requested rank with no kernel at all is outside the quantifier (the API raises 'No objects to concatenate'); counted as skipped",
                "ratios compared with tolerance 0.005+1e-9 (round(.,2) in the code)"]
@@ -79,6 +81,13 @@ def coq_term(case, impl):
 CAT = {"host_wait": 0, "kernel_wait": 1, "other": 2}
 
 
+def _twins(rows, s):
+    """two activities of the stream with the same start AND the same end: the property does not say which of them is 'the next kernel'
+    (the sort key (ts, end) leaves them tied), so only the stream's total is determined"""
+    ks = [(x["ts"], x["ts"] + x["dur"]) for x in rows if x["stream"] == s and x["cat"] in KCATS]
+    return len(set(ks)) < len(ks)
+
+
 def _tie_big(rows, s):
     ks = [x for x in rows if x["stream"] == s and x["cat"] in KCATS]
     return len(ks) >= 16 and len({x["ts"] for x in ks}) < len(ks)
@@ -102,6 +111,12 @@ def compare(case, impl, model):
             if _tie_big(rows, s):
                 continue
             tot = sum(sums)
+            if _twins(rows, s):
+                gt = sum(got.get((r, s, c), (0.0, None))[0] for c in range(3))
+                if gt != tot:
+                    disc.append(f"rank {r} stream {s} threshold {impl['d']}: total idle time impl={gt} model={tot} (stream with identical twin activities: "
+                                f"only the total is determined)")
+                continue
             for c in range(3):
                 t, ratio = got.get((r, s, c), (0.0, None))
                 if t != int(t) or int(t) != sums[c]:
